@@ -485,6 +485,16 @@ func runC14(t *testing.T, c simrt.Chooser, o Opts) *Out {
 	if bigPopulation {
 		simrtProbe(&res, "dedup-262144-hosts")
 	}
+	// "never split": a record that was begun is completed at the same virtual instant. (What the
+	// simulated slow consumer does to one write - take it in two parts - is not the program's doing.)
+	outs, _ := iow.Snapshot()
+	for i := 0; i+1 < len(outs); i++ {
+		d := outs[i].Data
+		if outs[i].Part == 0 && len(d) > 0 && d[len(d)-1] != '\n' && outs[i+1].T > outs[i].T {
+			out.violate("C14.split", sig, "a record was written in parts %v apart (a reader of the stream sees half a line in between): ...%q at %v, rest at %v", outs[i+1].T-outs[i].T, clip(string(d[max(0, len(d)-60):])), outs[i].T, outs[i+1].T)
+			break
+		}
+	}
 	stdout := iow.OutBytes()
 	lines, complete := stdoutLines(stdout)
 	if !complete {
